@@ -34,6 +34,9 @@ fn main() {
         for (ctx, wrap) in [("{}", 0), ("Option<{}>", 1), ("Vec<{}>", 2), ("HashMap<String, {}>", 3), ("({}, u32)", 4), ("Result<{}, String>", 5)] {
             let s = ctx.replace("{}", name);
             rep.case("custom_name_survives_parsing", &s, &|| {
+                // as in the pipeline: the analyzer's resolver knows the configured mapping keys
+                let mut tr = TypeResolver::new();
+                tr.add_type_mapping(name.to_string(), "string".to_string());
                 let got = tr.parse_type_structure(&s);
                 let mut cs = BTreeSet::new();
                 customs(&got, &mut cs);
@@ -41,6 +44,36 @@ fn main() {
                 if cs.len() == 1 && cs.contains(name) { Ok(show(&got)) } else { Err(format!("the named type `{}` is not a Custom leaf of the parsed tree {} (custom leaves: {:?})", name, show(&got), cs)) }
             });
         }
+    }
+    // C05 / C07 / C01: a project type written with a module path is the type of its last segment (no mapping involved)
+    let cus = |n: &str| TypeStructure::Custom(n.to_string());
+    let pathy: Vec<(&str, TypeStructure)> = vec![
+        ("crate::models::User", cus("User")),
+        ("self::Item", cus("Item")),
+        ("super::m::Über", cus("Über")),
+        ("::my_crate::User", cus("User")),
+        ("Vec<crate::models::User>", TypeStructure::Array(Box::new(cus("User")))),
+        ("std::vec::Vec<crate::Item>", TypeStructure::Array(Box::new(cus("Item")))),
+        ("core::option::Option<User>", TypeStructure::Optional(Box::new(cus("User")))),
+        ("std::collections::HashMap<String, crate::models::User>", TypeStructure::Map { key: Box::new(TypeStructure::Primitive("string".into())), value: Box::new(cus("User")) }),
+        ("std::result::Result<crate::User, String>", TypeStructure::Result(Box::new(cus("User")))),
+        ("(crate::User, std::string::String)", TypeStructure::Tuple(vec![cus("User"), TypeStructure::Primitive("string".into())])),
+        ("&crate::models::User", cus("User")),
+        ("Option<&crate::models::Item>", TypeStructure::Optional(Box::new(cus("Item")))),
+    ];
+    for (s, want) in &pathy {
+        rep.case("parse_type_structure", s, &|| {
+            let got = tr.parse_type_structure(s);
+            if show(&got) == show(want) { Ok(show(&got)) } else { Err(format!("parsed as {}, the type table gives {} (a path-qualified name is the type named by its last segment)", show(&got), show(want))) }
+        });
+        rep.case("harvest_covers_parsed_customs", s, &|| {
+            let mut names = HashSet::new();
+            ca.extract_type_names(s, &mut names);
+            let mut cs = BTreeSet::new();
+            customs(want, &mut cs);
+            let missing: Vec<&String> = cs.iter().filter(|c| !names.contains(*c)).collect();
+            if missing.is_empty() { Ok(format!("{:?}", cs)) } else { Err(format!("project types {:?} occur in the type but extract_type_names harvested only {:?}", missing, { let mut v: Vec<_> = names.iter().collect(); v.sort(); v })) }
+        });
     }
     rep.finish()
 }
